@@ -217,10 +217,16 @@ func (b *Broker) Send(ctx context.Context, t EventType, payload interface{}) (St
 // application, which then would invoke this method.  Another typically use-case
 // is to have all Nodes reevaluated any external configuration they might have.
 func (b *Broker) Reopen(ctx context.Context) error {
+	// Don't hold the lock while calling into the nodes: a node's Reopen can
+	// call back into the broker.
 	b.lock.RLock()
-	defer b.lock.RUnlock()
-
+	graphs := make([]*graph, 0, len(b.graphs))
 	for _, g := range b.graphs {
+		graphs = append(graphs, g)
+	}
+	b.lock.RUnlock()
+
+	for _, g := range graphs {
 		if err := g.reopen(ctx); err != nil {
 			return err
 		}
